@@ -8,6 +8,7 @@ import (
 // C14 — attribute binding: falsy omits, class and style merge, directives never leak.
 
 //verif:harness VerifC14_Attrs quick.maxpaths=100000 thorough.maxpaths=600000 timeout=3000
+//verif:harness VerifC14_Repeated quick.maxpaths=20000 thorough.maxpaths=100000 timeout=1800
 
 type zzAttrSpec struct {
 	src  string // attribute as written in the template
@@ -33,6 +34,7 @@ var zzC14Catalogue = []zzAttrSpec{
 	/* 15 */ {`:title="bv"`, ":title"},
 	/* 16 */ {`title="static-t"`, "title"},
 	/* 17 */ {`:style="{margin: zv, zIndex: iv, color: bv}"`, ":style"},
+	/* 18 */ {`style=""`, "style"},
 }
 
 // VerifC14_Attrs: differential against a reference attribute evaluator
@@ -135,6 +137,9 @@ func VerifC14_Attrs() {
 			hasStyle = true
 			styleDecl["color"] = "red"
 			styleDecl["margin"] = "0"
+		case 18:
+			// an empty static style is still the element's one style attribute
+			hasStyle = true
 		case 13:
 			want["data-lit"] = "a b"
 		case 15:
@@ -217,7 +222,6 @@ func VerifC14_Attrs() {
 	zzNote("wantNames", strings.Join(wantNames, ","))
 	zzAssert(strings.Join(gotNames, ",") == strings.Join(wantNames, ","), "C14.attrs.names")
 	for n, v := range want {
-		zzNote("attr", n)
 		zzAssert(got[n] == v, "C14.attrs.value")
 	}
 	if hasStyle {
@@ -240,4 +244,61 @@ func VerifC14_Attrs() {
 	for _, d := range []string{"v-if", "v-else", "v-for", "v-show", "v-once", "v-bind", ":", "["} {
 		zzAssert(!strings.Contains(tag, " "+d), "C14.attrs.directive-leaked")
 	}
+}
+
+// VerifC14_Repeated: one element of the template is evaluated several times
+// with different values (loop body, slot content filled once per iteration,
+// slot used twice): every evaluation follows the rules for its own values,
+// and the static attributes come out unchanged each time.
+func VerifC14_Repeated() {
+	how := zzChoice("how", 3)
+	n := zzBound("rows", 2, 3)
+	var rows []any
+	var ons, bolds []bool
+	for r := 0; r < n; r++ {
+		on := zzBool("on")
+		bold := zzBool("bold")
+		ons, bolds = append(ons, on), append(bolds, bold)
+		rows = append(rows, map[string]any{"id": r + 1, "on": on, "bold": bold})
+	}
+	el := `<b style="color:red" class="base" title="static" v-show="ROW.on" :class="{bold: ROW.bold}" :data-id="ROW.id">x</b>`
+	var body string
+	switch how {
+	case 0: // loop body
+		body = `<ul><li v-for="row in rows">` + strings.ReplaceAll(el, "ROW", "row") + `</li></ul>`
+	case 1: // scoped slot content, the slot sits in a loop
+		body = `<template include="rowsc.vuego"><template #default="p">` + strings.ReplaceAll(el, "ROW", "p.row") + `</template></template>`
+	case 2: // plain slot content with a nested loop, the slot is used twice
+		body = `<template include="twicec.vuego"><i v-for="row in rows">` + strings.ReplaceAll(el, "ROW", "row") + `</i></template>`
+	}
+	fsys := newZZFS(map[string]string{
+		"rowsc.vuego":  `<ul><li v-for="row in rows"><slot :row="row"></slot></li></ul>`,
+		"twicec.vuego": `<div><slot></slot><u>+</u><slot></slot></div>`,
+	})
+	out, err := zzRenderVia(zzEntry(), fsys, nil, body, map[string]any{"rows": rows})
+	zzNote("template", body)
+	zzNote("out", out)
+	zzAssert(err == nil, "C14.repeated.render-error")
+	uses := 1
+	if how == 2 {
+		uses = 2
+	}
+	rest := out
+	for u := 0; u < uses; u++ {
+		for r := 0; r < n; r++ {
+			p := strings.Index(rest, "<b ")
+			zzAssert(p >= 0, "C14.repeated.instance-missing")
+			q := strings.Index(rest[p:], ">")
+			tag := rest[p : p+q]
+			rest = rest[p+q:]
+			zzAssert(strings.Contains(tag, `data-id="`+string(rune('1'+r))+`"`), "C14.repeated.bound-value")
+			zzAssert(strings.Contains(tag, "color:red"), "C14.repeated.static-style-kept")
+			zzAssert(strings.Contains(tag, `title="static"`), "C14.repeated.static-attribute-kept")
+			zzAssert(strings.Contains(tag, "display:none") == !ons[r], "C14.repeated.v-show")
+			zzAssert(strings.Contains(tag, "bold") == bolds[r], "C14.repeated.class-object")
+			zzAssert(strings.Contains(tag, "base"), "C14.repeated.static-class-kept")
+			zzAssert(!strings.Contains(tag, "v-show") && !strings.Contains(tag, ":class"), "C14.repeated.directive-leaked")
+		}
+	}
+	zzAssert(!strings.Contains(rest, "<b "), "C14.repeated.extra-instance")
 }
